@@ -84,6 +84,58 @@ pub fn report_and_exit(v: &Value) -> ! {
     }
 }
 
+/// Run `f` in a child forked from the calling (scenario) process, which inherits every patch and
+/// every mapping as they are now.  Ok(value), or Err(signal) / Err(-exit code) if the child died.
+pub fn in_fork(f: impl FnOnce() -> u64) -> Result<u64, i32> {
+    let mut fds = [0i32; 2];
+    unsafe {
+        if libc::pipe(fds.as_mut_ptr()) != 0 {
+            return Err(-1001);
+        }
+        let pid = libc::fork();
+        if pid < 0 {
+            return Err(-1002);
+        }
+        if pid == 0 {
+            libc::close(fds[0]);
+            libc::alarm(20);
+            let r = std::panic::catch_unwind(std::panic::AssertUnwindSafe(f));
+            match r {
+                Ok(v) => {
+                    let b = v.to_le_bytes();
+                    libc::write(fds[1], b.as_ptr() as *const libc::c_void, 8);
+                    libc::_exit(0)
+                }
+                Err(_) => libc::_exit(3),
+            }
+        }
+        libc::close(fds[1]);
+        let mut b = [0u8; 8];
+        let mut got = 0usize;
+        while got < 8 {
+            let n = libc::read(fds[0], b[got..].as_mut_ptr() as *mut libc::c_void, 8 - got);
+            if n <= 0 {
+                break;
+            }
+            got += n as usize;
+        }
+        libc::close(fds[0]);
+        let mut status = 0i32;
+        libc::waitpid(pid, &mut status, 0);
+        if libc::WIFSIGNALED(status) {
+            return Err(libc::WTERMSIG(status));
+        }
+        let code = libc::WEXITSTATUS(status);
+        if code != 0 {
+            return Err(-code);
+        }
+        if got < 8 {
+            return Err(-1003);
+        }
+        Ok(u64::from_le_bytes(b))
+    }
+}
+
 /// Run `body` in a forked child; it returns the JSON report.
 pub fn run_contained(timeout_s: u32, body: impl FnOnce() -> Value) -> ChildEnd {
     let mut fds = [0i32; 2];
